@@ -221,7 +221,11 @@ def native_replay(case):
         for e in c.ensures:
             out["ensures"].append([e, native_eval.eval_clause(e, env, old_env, c.model, pre_ids, natives, tol=c.native_tol)])
     out["violated"] = [t for t, v in out["ensures"] if v is False]
-    if out["raised"] is not None and out["raised"] not in c.raises:
+    if out["raised"] is not None and out["raised"] in c.may_raise:
+        for cl in c.may_raise[out["raised"]]:
+            if native_eval.eval_clause(cl, env, old_env, c.model, pre_ids, natives, tol=c.native_tol) is False:
+                out["violated"].append("raised-%s:%s" % (out["raised"], cl))
+    elif out["raised"] is not None and out["raised"] not in c.raises:
         out["violated"].append("no-exception:" + out["raised"])
     out["requires_hold"] = all(v is not False for _, v in out["requires"])
     return out
